@@ -36,6 +36,11 @@ func (w *World) purityEntries() []entryPoint {
 			add("exec."+t+"."+m, w.method("exec", t, m), nil)
 		}
 	}
+	// compiling an expression: nothing outlives the call but the value it returns
+	add("xsel.BuildExpr", w.member("", "BuildExpr"), nil)
+	add("xsel.MustBuildExpr", w.member("", "MustBuildExpr"), nil)
+	add("grammar.Build", w.member("grammar", "Build"), nil)
+	add("grammar.MustBuild", w.member("grammar", "MustBuild"), nil)
 	for _, m := range []string{"Next", "GetString", "GetStringExtents"} {
 		add("grammar.Grammar."+m, w.method("grammar", "Grammar", m), nil)
 	}
@@ -44,7 +49,7 @@ func (w *World) purityEntries() []entryPoint {
 
 func checkC13(w *World) {
 	const P = "C13"
-	docRule(P, "R13.1", "E", "write-effect closure: over all repository functions reachable (VTA call graph) from Exec, Unmarshal, GetCursorString, the Result conversion methods and Grammar.Next/GetString/GetStringExtents, every store, map update, in-place append, copy, delete, sort.Sort and every write performed by a classified external callee has a base allocated in the activation (or freshly returned by a callee): never memory reachable from the cursor, the compiled expression, a variable's or argument's Result, the caller's binding maps, or a package-level variable. External callees are classified in a frozen table; an unclassified one that receives a non-local reference fails the check.")
+	docRule(P, "R13.1", "E", "write-effect closure: over all repository functions reachable (VTA call graph) from Exec, Unmarshal, GetCursorString, the Result conversion methods, BuildExpr/MustBuildExpr/grammar.Build/MustBuild and Grammar.Next/GetString/GetStringExtents, every store, map update, in-place append, copy, delete, sort.Sort and every write performed by a classified external callee has a base allocated in the activation (or freshly returned by a callee): never memory reachable from the cursor, the compiled expression, a variable's or argument's Result, the caller's binding maps, or a package-level variable. External callees are classified in a frozen table; an unclassified one that receives a non-local reference fails the check.")
 	docRule(P, "R13.2", "T", "no package-level variable of exec, store, parser, grammar (hand-written part) or the root package is written outside package initialisation by any function reachable from the entry points.")
 	docRule(P, "R13.3", "advisory", "map iterations whose order could reach a result are listed (not armed): bsr.Set.GetRoots and parser.call in generated code.")
 	e := w.Effects()
